@@ -662,3 +662,8 @@ where
         return None;
     }
 }
+
+#[cfg(all(kani, olson_sean_k_wax_verif))]
+mod verif_kani {
+    include!(concat!(env!("WAX_VERIF_DIR"), "/kani/filter.rs"));
+}
